@@ -33,7 +33,7 @@ theorem reload_error_invisible_plain (rx : Rx) (st : MState V) (e : LoadErr) (pr
 /-- All-or-nothing, from the raw configuration: whatever `InitFromYAMLString` is given, the cached
     mapper afterwards is either exactly the old one (load failed) or answers every history like a
     newly built mapper for the loaded configuration — there is no third outcome. -/
-theorem reload_all_or_nothing (rx : Rx) (rxOk : Bytes → Bool) (defBuckets : List V) (defQuantiles : List (V × V))
+theorem reload_all_or_nothing [NumOps V] (rx : Rx) (rxOk : Bytes → Bool) (defBuckets : List V) (defQuantiles : List (V × V))
     (raw : RawConfig V) (m : CachedMapper V) :
     (∃ e, load rxOk defBuckets defQuantiles raw = .error e ∧
         m.reload (load rxOk defBuckets defQuantiles raw) = m) ∨
